@@ -303,8 +303,9 @@ def run_dd_stage(ctx):
     dd_distinct = ctx.stats.get("distinct_nontrivial", 0)
     ctx.samples = samples
     ctx.stats["distinct_nontrivial"] = before.get("distinct_nontrivial", 0)
-    if ctx.stats.get("unresolved", 0):
+    if ctx.stats.get("unresolved", 0) and not bad:
         # a SAT op whose handle table was not available at the resolving snapshot was not checked
+        # (only meaningful without violations: the candidates of the shrinker may contain such ops)
         raise vf.CheckFailure(f"DD stage: {ctx.stats['unresolved']} operations could not be resolved by the driver")
     return {"dd_cases": len(cases), "dd_cases_ok": ok, "dd_cases_bad": len(bad),
             "dd_sat_queries_checked": int(ctx.stats.get("chk_C12", 0)),
